@@ -18,7 +18,8 @@ ID = "C01"
 LEVEL = "exploration"
 BATCH = 1
 TIMEOUT = 600
-REQUIRED_OBS = ["ydot_compared", "backend_dense", "backend_sparse", "backend_cusparse", "backend_odeint"]
+REQUIRED_OBS = ["ydot_compared", "backend_dense", "backend_sparse", "backend_cusparse", "backend_odeint", "tag_bundled_primordial"]
+TIMEOUT = 3000
 RULE = ("seeded random abstract networks (species from compositions; reactions with 1-3 reactants incl. repeats, 0-5 "
         "products, catalysts, pseudo-reactants, duplicate reactions, isolated required species; entry through the API or "
         "through 1-3 files of mixed formats; optional cooling processes and ODE modifiers) rendered for dense, sparse, "
@@ -117,6 +118,31 @@ def make_case(rng: random.Random, tier: str, thermal_p=0.25, mod_p=0.2, maxdeps=
     return case
 
 
+def bundled_case(example: str, rng, backends=None) -> dict:
+    """A bundled example network as a structural case: species and reactions from /verif's own reader of the file."""
+    from ..gen import bundled
+    b = bundled.load(example, common.REPO)
+    net = {"species": b["species"], "reactions": b["reactions"], "required": b["required"]}
+    case = {"net": net, "entry": "bundled", "bundled": example, "alphas": None, "indexed": True, "special": "bundled"}
+    cool = list(b["module"].cooling)
+    if cool:
+        case["cooling"] = cool
+        case["kcs"] = chem.distinct_alphas(rng, len(cool))
+        case["npar"], case["gamma"] = 0.5 + rng.random(), 1.2 + rng.random()
+    names = [s["name"] for s in net["species"]]
+    case["ys"] = []
+    for _ in range(2):
+        yv = {n: 0.5 + 1.5 * rng.random() for n in names}
+        yv["__TGAS__"] = 10 ** rng.uniform(3.5, 5.5)
+        case["ys"].append(yv)
+    case["ks"] = [chem.distinct_alphas(rng, len(net["reactions"])) for _ in range(2)]
+    case["nsystem"], case["block"] = 3, 2
+    case["data"] = {"Tgas": 300.0}
+    if backends:
+        case["backends"] = backends
+    return case
+
+
 def tags_of(case) -> set:
     t = set()
     for r in case["net"]["reactions"]:
@@ -158,6 +184,12 @@ def gen_cases(tier: str) -> list[dict]:
     if True:
         cases.append({"net": {"species": [], "reactions": [], "required": []}, "alphas": [], "entry": "api",
                       "ys": [{"__TGAS__": 1e4}], "ks": [[1.25]], "special": "empty"})
+    # bundled example networks (real-world structure): minimal and primordial always, deuterium (3466 reactions) in the thorough tier
+    r = random.Random(rng.getrandbits(64))
+    cases.append(bundled_case("minimal", r))
+    cases.append(bundled_case("primordial", r))
+    if tier == "thorough":
+        cases.append(bundled_case("deuterium", r, backends=["dense", "sparse"]))
     return cases
 
 
@@ -203,7 +235,7 @@ def check_fex(case, be, o, viol, obs):
                             if s != nsys - 1:
                                 continue
                     # the rate vector must be the one EvalRates produced for *these* reactions
-                    if name == "fex" and nre and len(k) >= nre:
+                    if name == "fex" and nre and len(k) >= nre and case.get("alphas") is not None:
                         for ri, a in enumerate(case["alphas"]):
                             if k[ri] != a:
                                 viol.append(violation("rate_slot_mismatch", f"{be}: k[{ri}]={k[ri]!r} but reaction {ri} has alpha={a!r}",
@@ -266,6 +298,8 @@ def run_case(case: dict, ctx) -> dict:
             continue
         check_fex(case, be, o, viol, obs)
     tags = tags_of(case) if case.get("special") != "empty" else {"empty_network"}
+    if case.get("bundled"):
+        tags.add("bundled_" + case["bundled"])
     for t in tags:
         obs["tag_" + t] += 1
     obs["reactions_executed"] += len(case["net"]["reactions"])
